@@ -19,12 +19,162 @@ def srcFacts : Facts :=
     branchGuarded := FactsC07.branchPassthroughGuarded,
     branchPropagates := FactsC07.branchPropagates }
 
-/-- Source fact tie. -/
+/-- Source fact tie: addBranch types a pass-through start node only while its type is
+    unknown and then runs the work list; checkAssignable is the decision list the model
+    transcribes; updateToValidateMap infers only into unknown types; both `may` sites install
+    the run-time converter. -/
 theorem facts_match :
     srcFacts = Expected.C20.facts ∧
     FactsC07.checkAssignableShape = Expected.C07.checkAssignableShape ∧
     FactsC07.updateInferConds = Expected.C07.updateInferConds ∧
     FactsC07.branchMayInstallsConverter = true ∧ FactsC07.edgeMayInstallsConverter = true := by
   decide
+
+/-! ## the assignability table -/
+
+/-- **assignable_table.** The three answers of `checkAssignable` agree with Go assignability
+    of values: `must` ⇒ every value of the upstream type fits downstream; `may` is only
+    answered for an interface upstream; between two concrete types the answer is `must` iff
+    the types are equal, `mustNot` otherwise, and then no value fits. -/
+theorem assignable_table (im : Impl) (ht : ImplTrans im) (A B : Ty) :
+    (checkAssignable im (some A) (some B) = .must → ∀ d, dynOk im d A = true → dynOk im d B = true) ∧
+    (checkAssignable im (some A) (some B) = .may → A.isIface = true) ∧
+    (∀ a b, A = .conc a → B = .conc b →
+      checkAssignable im (some A) (some B) = (if a = b then .must else .mustNot) ∧
+      ∀ d, dynOk im d A = true → (dynOk im d B = true ↔ a = b)) := by
+  refine ⟨fun h d hd => must_sound im ht A B h d hd, may_upstream_iface im A B, ?_⟩
+  intro a b ha hb; subst ha; subst hb
+  exact concrete_table im a b
+
+/-! ## what compiles is sound -/
+
+/-- **compiled_edges_sound.** For every sequence of public Graph-API calls (nodes with any
+    types and handlers, AddEdge, AddBranch with any number of end nodes, Compile – in any
+    order, failing calls included), every `implements` relation and every Go map iteration
+    order: each runnable that a Compile hands out has all its data edges, all its branch
+    conditions and all its branch → end-node connections validated – assignable for sure, or
+    possibly assignable *with* the run-time converter installed. -/
+theorem compiled_edges_sound (im : Impl) (ord : Ord) (hv : ord.Valid)
+    (cmp : Cmp) (inT outT : Ty) (st : Option Nat) (ops : List Op)
+    (hops : ∀ op ∈ ops, op.isGraphApi = true) :
+    ∀ r ∈ (run srcFacts im ord (Builder.new cmp inT outT st) ops).2.2, SoundRunner im r :=
+  run_runners_sound srcFacts (by decide) (by decide) im ord hv ops _ hops (Inv.new im cmp inT outT st)
+
+/-- …in particular: a data edge of a compiled graph whose two declared types are both
+    concrete connects equal types. -/
+theorem compiled_concrete_edges_equal (im : Impl) (ord : Ord) (hv : ord.Valid)
+    (cmp : Cmp) (inT outT : Ty) (st : Option Nat) (ops : List Op)
+    (hops : ∀ op ∈ ops, op.isGraphApi = true)
+    (r : Runner) (hr : r ∈ (run srcFacts im ord (Builder.new cmp inT outT st) ops).2.2)
+    (s e : Key) (he : (s, e) ∈ r.dataEdges) (a b : Nat)
+    (ha : r.outOf s = some (.conc a)) (hb : r.inOf e = some (.conc b)) : a = b := by
+  have hs := (compiled_edges_sound im ord hv cmp inT outT st ops hops r hr).edges (s, e) he
+  unfold SoundConn at hs
+  rw [ha, hb, (concrete_table im a b).1] at hs
+  by_cases h : a = b
+  · exact h
+  · simp [h] at hs
+
+/-- **run_no_type_panic.** No run of such a runnable – whatever the node bodies return
+    (within their declared output types), whatever the branch conditions choose, whatever the
+    dynamic type of the input – reaches a failing `input.(T)` assertion of a node, a state
+    handler, a branch condition or the final output conversion. -/
+theorem run_no_type_panic (im : Impl) (ht : ImplTrans im) (ord : Ord) (hv : ord.Valid)
+    (cmp : Cmp) (inT outT : Ty) (st : Option Nat) (ops : List Op)
+    (hops : ∀ op ∈ ops, op.isGraphApi = true)
+    (r : Runner) (hr : r ∈ (run srcFacts im ord (Builder.new cmp inT outT st) ops).2.2)
+    (c : Code) (hc : CodeOk im r c) (fuel : Nat) (d0 : Dyn) (hd : dynOk im d0 r.inT = true) :
+    runGraph im r c fuel d0 ≠ .panic :=
+  runGraph_no_panic ht (compiled_edges_sound im ord hv cmp inT outT st ops hops r hr) hc fuel d0 hd
+
+/-- **may_edge_errors_iff.** On a data edge of such a runnable, a value that fits the
+    upstream type makes the framework report an ordinary error exactly when the upstream type
+    is an interface and the value's dynamic type is not assignable to the downstream type. -/
+theorem may_edge_errors_iff (im : Impl) (ht : ImplTrans im) (ord : Ord) (hv : ord.Valid)
+    (cmp : Cmp) (inT outT : Ty) (st : Option Nat) (ops : List Op)
+    (hops : ∀ op ∈ ops, op.isGraphApi = true)
+    (r : Runner) (hr : r ∈ (run srcFacts im ord (Builder.new cmp inT outT st) ops).2.2)
+    (s e : Key) (he : (s, e) ∈ r.dataEdges) (A B : Ty) (ho : r.outOf s = some A) (hi : r.inOf e = some B)
+    (d : Dyn) (hd : dynOk im d A = true) :
+    convert im r s e d = .typeErr ↔ (A.isIface = true ∧ dynOk im d B = false) :=
+  convert_typeErr_iff ht ((compiled_edges_sound im ord hv cmp inT outT st ops hops r hr).edges (s, e) he) ho hi hd
+
+/-! ## non-vacuity, the menu relation, negation witnesses -/
+
+/-- the relation of the harness menu: c3 implements i0 and i1, c4 implements i0, i1 ⊇ i0 -/
+def menuImpl : Impl := [(.conc 3, 0), (.conc 3, 1), (.conc 4, 0), (.iface 1, 0)]
+
+theorem menuImpl_trans : ImplTrans menuImpl := by
+  intro t u v hu h1 h2
+  cases v with
+  | any => rfl
+  | conc c => simp [implements] at h2
+  | iface j =>
+    cases u with
+    | conc c => simp [Ty.isIface] at hu
+    | any =>
+      simp [implements, menuImpl] at h2
+    | iface i =>
+      simp only [implements, menuImpl, Bool.or_eq_true, beq_iff_eq, List.contains_eq_mem,
+        List.mem_cons, Prod.mk.injEq, List.mem_nil_iff, or_false, decide_eq_true_eq] at h1 h2 ⊢
+      rcases h2 with h2 | h2
+      · cases h2; exact h1
+      · rcases h2 with ⟨h2, rfl⟩ | ⟨h2, rfl⟩ | ⟨h2, rfl⟩ | ⟨h2, rfl⟩
+        all_goals first | (simp at h2; done) | skip
+        -- u = iface 1, v = iface 0
+        cases h2
+        rcases h1 with h1 | h1
+        · subst h1; simp
+        · rcases h1 with ⟨rfl, h⟩ | ⟨rfl, h⟩ | ⟨rfl, h⟩ | ⟨rfl, h⟩ <;> simp_all
+
+def lam (k : Key) (i o : Ty) : Op :=
+  .node { key := k, passthrough := false, inTy := i, outTy := o, pre := none, post := none, nodeKeyOpt := false }
+def pt (k : Key) : Op :=
+  .node { key := k, passthrough := true, inTy := .any, outTy := .any, pre := none, post := none, nodeKeyOpt := false }
+def edge (s e : Key) : Op := .edge s e false false none
+def copts : COpts := { trigger := .unset, maxSteps := 0, getState := false }
+
+/-- a(any→any) → p (pass-through, inferred any) → b(i0→c0): the edge p→b is a `may` edge;
+    the graph compiles; a value implementing i0 runs through, another one is an ordinary error -/
+def exOps : List Op :=
+  [lam "a" .any .any, pt "p", lam "b" (.iface 0) (.conc 0),
+   edge START "a", edge "a" "p", edge "p" "b", edge "b" END, .compile copts]
+
+def exCode (ret : Dyn) : Code := { body := fun k d => if k = "a" then ret else 0, pick := fun _ _ _ => END }
+
+example : (run srcFacts menuImpl Ord.id (Builder.new .graph .any (.conc 0) none) exOps).2.1
+    = [.ok, .ok, .ok, .ok, .ok, .ok, .ok, .ok] := by decide
+
+example : (run srcFacts menuImpl Ord.id (Builder.new .graph .any (.conc 0) none) exOps).2.2.map
+      (fun r => (runGraph menuImpl r (exCode 3) 20 1, runGraph menuImpl r (exCode 1) 20 1))
+    = [(.ok, .typeErr)] := by decide
+
+example : ∀ op ∈ exOps, op.isGraphApi = true := by decide
+
+/-- the defect of the unfixed source: with the unguarded assignment in addBranch,
+    a(c0→c0) → p, then a branch on p with an int (c1) condition: the graph compiles and the
+    run panics in the branch's type assertion -/
+theorem unguarded_branch_panics :
+    let f := { Expected.C20.facts with branchGuarded := false }
+    let ops := [lam "a" (.conc 0) (.conc 0), lam "b" (.conc 1) (.conc 0), lam "c" (.conc 1) (.conc 0), pt "p",
+      edge START "a", edge "a" "p", .branch "p" (.conc 1) ["b", "c"] false, edge "b" END, edge "c" END,
+      .compile copts]
+    let st := run f menuImpl Ord.id (Builder.new .graph (.conc 0) (.conc 0) none) ops
+    st.2.1 = [.ok, .ok, .ok, .ok, .ok, .ok, .ok, .ok, .ok, .ok] ∧
+    st.2.2.map (fun r => runGraph menuImpl r { body := fun _ _ => 0, pick := fun _ _ _ => "b" } 20 0) = [.panic] := by
+  decide
+
+/-- with the guard the same AddBranch call is refused -/
+theorem guarded_branch_rejected :
+    (run Expected.C20.facts menuImpl Ord.id (Builder.new .graph (.conc 0) (.conc 0) none)
+      [lam "a" (.conc 0) (.conc 0), pt "p", edge START "a", edge "a" "p",
+       .branch "p" (.conc 1) ["b", "c"] false]).2.1
+    = [.ok, .ok, .ok, .ok, .fresh .branchMismatch] := by decide
+
+/-- second defect: when addBranch does not run the work list after typing a pass-through
+    start node (zero end nodes), the result of the same call sequence depends on Go's map
+    iteration order: one order installs the converter (ordinary error), the other leaves the
+    edge unchecked and the run panics -/
+def revOrd : Ord := { Ord.id with keys := fun _ l => l.reverse }
 
 end EinoV.C07
